@@ -242,13 +242,62 @@ def cli_case(case, env):
         return
     rargs = ["--files", "--hidden", "--no-ignore-dot", "--no-ignore-exclude", "--no-ignore-global", "--no-config",
              "-g", "!.git/", "--null", "-j1"] + (["--ignore-file-case-insensitive"] if ci else [])
-    r = common.run_rg(rargs, repo, env.home)
+    # the same repository named in different ways: no path, "./", by name
+    # from the parent directory with and without a trailing slash, by
+    # absolute path with and without one, or one of its sub directories (the
+    # rules of the directories above it still apply)
+    gitset = set(x for x in g.stdout.split(b"\0") if x)
+    parent, name = os.path.dirname(repo), os.path.basename(repo)
+    form = rng.below(7)
+    sub = None
+    if form == 0:
+        cwd, paths, strip = repo, [], b""
+    elif form == 1:
+        cwd, paths, strip = repo, ["./"], b"./"
+    elif form == 2:
+        cwd, paths, strip = parent, [name], name.encode() + b"/"
+    elif form == 3:
+        cwd, paths, strip = parent, [name + "/"], name.encode() + b"/"
+    elif form == 4:
+        cwd, paths, strip = parent, [repo], repo.encode() + b"/"
+    elif form == 5:
+        cwd, paths, strip = parent, [repo + "/"], repo.encode() + b"/"
+    else:
+        cands = [d for d in dirs if os.path.isdir(os.path.join(repo, d))]
+        sub = rng.pick(cands) if cands else None
+        if sub is not None:
+            # a root that git itself ignores is still searched when it is
+            # named explicitly (C05): not a case for this oracle
+            try:
+                ign = subprocess.run(["git"] + (["-c", "core.ignoreCase=true"] if ci else []) +
+                                     ["check-ignore", "--", sub, sub + "/"], cwd=repo, env=genv,
+                                     stdout=subprocess.DEVNULL, stderr=subprocess.DEVNULL, timeout=60).returncode != 1
+            except Exception:
+                ign = True
+            if ign:
+                env.count("sub_root_ignored_by_git_not_used")
+                sub = None
+        if sub is not None:
+            shown = sub if not sub.startswith("-") else "./" + sub
+            cwd, paths, strip = repo, [shown + rng.pick(["", "/"])], b""
+            gitset = set(x for x in gitset if x.startswith(sub.encode() + b"/"))
+        else:
+            cwd, paths, strip = repo, [], b""
+    env.count("root_form_%d" % form)
+    rargs = rargs + paths
+    r = common.run_rg(rargs, cwd, env.home)
     if r is None:
         env.inconclusive("watchdog")
         return
     env.count("repositories")
-    gitset = set(x for x in g.stdout.split(b"\0") if x)
-    rgset = set(x[2:] if x.startswith(b"./") else x for x in r[1].split(b"\0") if x)
+
+    def norm(x):
+        if strip and x.startswith(strip):
+            x = x[len(strip):]
+        if x.startswith(b"./"):
+            x = x[2:]
+        return x.replace(b"//", b"/")
+    rgset = set(norm(x) for x in r[1].split(b"\0") if x)
     allfiles = len(files) + len(igfiles)
     env.count("files_listed_by_git", len(gitset))
     env.count("files_ignored_by_git", allfiles - len(gitset))
